@@ -37,6 +37,9 @@ def gen_case(r, idx):
         if r.random() < 0.5:
             segs.append(("zero", r.choice([512, 3000])))
         tree[b"sparse%d" % k] = Node("file", 0o644, data=segs)
+    # a sparse file whose path does not fit the 100 byte name field (GNU tar then adds a path record behind GNU.sparse.name)
+    tree[b"d" * 60] = Node("dir", 0o755)
+    tree[b"d" * 60 + b"/" + b"e" * 70] = Node("file", 0o644, data=[("rand", 77, 700), ("zero", 4096), ("rand", 78, 100)])
     # sparse file with a map that needs several 512 byte map blocks (GNU 1.0) / extension headers (old GNU)
     if r.random() < 0.5:
         segs = []
@@ -82,7 +85,7 @@ def gen_case(r, idx):
             n.uid = 5
         n.mtime = n.mtime if n.mtime is not None else 0
     layout = {"dialect": dialect, "sparse": sparse, "xattr_style": r.choice(["schily", "libarchive"]),
-              "name_prefix": r.choice([b"./", b"./", b"", b"/"]), "numeric": r.choice(["auto", "pax", "auto"]) if dialect == "pax" else "auto",
+              "name_prefix": r.choice([b"./", b"./", b"", b"/"]), "numeric": r.choice(["auto", "pax", "auto"]) if dialect == "pax" else (r.choice(["auto", "b256"]) if dialect in ("gnu", "oldgnu") and sparse == "old" else "auto"),
               "links_first": r.random() < 0.3, "pad_to": r.choice([None, 10240]), "omit_dirs": []}
     # implicit parents: omit a directory entry that has children
     cand = [p for p in tree if p and tree[p].type == "dir" and any(q.startswith(p + b"/") for q in tree)]
